@@ -46,3 +46,59 @@ def setup_concrete():  # noqa: F811
     from checks import l2
 
     l2.setup_concrete()
+
+
+# ---- L2: real waveforms as the "previous pulse" (what counts as a pulse is decided on real Pulse objects) ---------
+
+from checks import l2  # noqa: E402
+from symx import core, stubs  # noqa: E402
+
+_k10b, _h10b = kernels, harness
+
+
+def h_real_prev(shape):
+    def h(inp):
+        stubs.bind(inp)
+        from pulser.pulse import Pulse
+        from pulser.waveforms import BlackmanWaveform, ConstantWaveform, CustomWaveform, RampWaveform
+
+        seq = l2.new_seq("virt")
+        seq.declare_channel("g", "ryd_glob")
+        ch = seq.declared_channels["g"]
+        d0, d2 = inp.mult("d0", 4, 8, 400), inp.mult("d2", 4, 8, 400)
+        d1 = shape["d1"]
+        kind = shape["prev"]
+        amp = {"ramp00": lambda: RampWaveform(d1, 0.0, 0.0), "custom0": lambda: CustomWaveform([0.0] * d1),
+               "blackman0": lambda: BlackmanWaveform(d1, 0.0), "const0": lambda: ConstantWaveform(d1, 0.0),
+               "ramp": lambda: RampWaveform(d1, 0.0, 1.0), "const": lambda: ConstantWaveform(d1, 0.5)}[kind]()
+        det = ConstantWaveform(d1, inp.real("det1", -10, 10)) if shape["det"] == "const" else RampWaveform(d1, -1.0, 1.0)
+        try:
+            seq.add(Pulse.ConstantPulse(d0, 1.0, 0.0, 0.0), "g")
+            seq.add(Pulse(amp, det, 1.0), "g", shape["proto1"])
+            seq.add(Pulse.ConstantPulse(d2, 1.0, 0.0, 2.0), "g", "min-delay")
+        except l2.REFUSALS:
+            raise core.Infeasible()
+        cs = seq._schedule["g"]
+        pulses = [sl for sl in cs.slots if l1.is_pulse(sl)]
+        p0, p1, p2 = pulses[0], pulses[1], pulses[-1]
+        # only a CONSTANT zero amplitude with a constant detuning is a delay; every other waveform is a pulse
+        prev = p0 if (kind == "const0" and shape["det"] == "const") else p1
+        fall = prev.type.fall_time(ch, in_eom_mode=False)
+        return [("c10:phase_jump_gap_real_pulses", p2.ti - prev.tf >= ch.phase_jump_time + fall)]
+
+    return h
+
+
+def kernels(tier):  # noqa: F811
+    ks = _k10b(tier)
+    for prev in ("ramp00", "custom0", "blackman0", "const0", "ramp", "const"):
+        for det in ("const", "ramp"):
+            for proto1 in ("min-delay", "no-delay"):
+                ks.append(("real_prev", dict(prev=prev, det=det, proto1=proto1, d1=12)))
+    return ks
+
+
+def harness(kernel, shape):  # noqa: F811
+    if kernel == "real_prev":
+        return h_real_prev(shape)
+    return _h10b(kernel, shape)
